@@ -72,6 +72,7 @@ def run_plan(mod, flows, seed, maxper=3):
     return runs, ""
 
 
+@common.serialised("modes")
 def observe(seed, tier):
     key = "modes-%s-%s-%d-%s" % (common.repo_tree_hash(), _hash_sources(), seed, tier)
     cpath = os.path.join(common.CACHE, key + ".json")
@@ -169,6 +170,19 @@ def observe(seed, tier):
             count("byte_comparisons")
             if again.get(fn) != smap[fn]:
                 hit("C17", "source-map mode: a second run of cff wrote a different %s" % fn, {"file": fn, "module": mods})
+        # ---- history independence (C17): generating over the outputs of an earlier run (other mode, not
+        # removed) gives what a first-ever generation gives
+        for step, (extra, ref, what) in enumerate(((["-genmode", "source-map"], smap, "source-map over existing base outputs"),
+                                                   ([], base, "base over existing source-map outputs"))):
+            rc, out = common.run_cff(mod, "./gen", extra=extra)
+            count("cff_runs")
+            now = gen_files(gdir)
+            for fn in ref:
+                count("byte_comparisons")
+                if now.get(fn) != ref[fn]:
+                    hit("C17", "generating %s wrote a %s that differs from a first-ever generation: the output depends on what earlier runs left behind" % (what, fn),
+                        {"file": fn, "module": mod, "history": ["base", "source-map", "base"][:step + 2], "fresh": ref[fn].decode()[:2000], "over_existing": (now.get(fn) or b"").decode()[:2000]})
+                    break
     # ---- auto-instrument (C13: succeeds with compiling output, or positioned diagnostics)
     moda, gdira = write_pkg("modes-auto-%d-%s" % (seed, tier), flows, ntypes)
     rc, out = common.run_cff(moda, "./gen", extra=["-auto-instrument"])
